@@ -16,7 +16,13 @@ let parse_thread ws =
     | w :: r -> go (z_of_int (int_of_string w) :: cur) acc r in
   go [] [] ws
 
-let () =
+let enum_hook : (z list -> z list list list -> z -> z -> (z * z) list list) option ref = ref None
+
+let main () =
+  let enum_mode = Array.length Sys.argv > 2 && Sys.argv.(2) = "--enum" in
+  let depth = if enum_mode then int_of_string Sys.argv.(3) else 0 in
+  let budget = if enum_mode then int_of_string Sys.argv.(4) else 0 in
+  let maxn = if enum_mode && Array.length Sys.argv > 5 then int_of_string Sys.argv.(5) else 100000 in
   let ic = open_in Sys.argv.(1) in
   let id = ref 0 and cfg = ref [] and progs = ref [] and sched = ref [] in
   let buf = Buffer.create 65536 in
@@ -32,6 +38,19 @@ let () =
                    | _ -> failwith "bad sched") r
     | "end" :: _ ->
         Buffer.add_string buf (Printf.sprintf "CASE %d\n" !id);
+        if enum_mode then begin
+          (match !enum_hook with
+           | None -> failwith "this model has no enum_case"
+           | Some f ->
+             let scheds = f !cfg (List.rev !progs) (z_of_int depth) (z_of_int budget) in
+             let k = ref 0 in
+             List.iter (fun sc ->
+               if !k < maxn then begin
+                 incr k;
+                 Buffer.add_string buf ("S " ^ String.concat " " (List.map (fun (t, c) ->
+                   Printf.sprintf "%d:%d" (int_of_z t) (int_of_z c)) sc) ^ "\n") end) scheds;
+             Buffer.add_string buf (Printf.sprintf "N %d\n" (List.length scheds)))
+        end else
         let out = run_case !cfg (List.rev !progs) !sched in
         List.iter (fun l ->
           Buffer.add_string buf (String.concat " " (List.map (fun z -> string_of_int (int_of_z z)) l));
@@ -40,3 +59,4 @@ let () =
     | _ -> ()
   done with End_of_file -> ());
   print_string (Buffer.contents buf)
+
